@@ -607,3 +607,7 @@ Proof. split; vm_compute; reflexivity. Qed.
 (* a non-canonical inhabitant of spec_float: 2^63 with exponent 0 is not a double (64-bit mantissa) *)
 Example C01_invalid_number_exists : valid_numb (S754_finite true 9223372036854775808 0) = false.
 Proof. vm_compute. reflexivity. Qed.
+(* C20's hypothesis on libm is satisfiable together with C20's display library: the exact floor-log10 model *)
+Require Blots.proofs.DisplayNumDischarge5.
+Example C01_log10_sane_pos_satisfiable : log10_sane_pos Blots.proofs.DisplayNumDischarge5.log10_floor_model.
+Proof. intros a k V _ D. exact (Blots.proofs.DisplayNumDischarge5.log10_floor_model_sane a k V D). Qed.
